@@ -15,6 +15,8 @@ type SweepCfg struct {
 	Funcs func(p *Program) []string
 	// Select filters the obligations of a selected function (nil: all).
 	Select func(o *Obligation) bool
+	// SelectP: like Select, with the program (overrides Select when set)
+	SelectP func(p *Program, o *Obligation) bool
 	// Unclaimed: obligations (name without the #n ordinal) the machinery cannot decide, with the reason.
 	Unclaimed map[string]string
 }
@@ -197,7 +199,11 @@ func loadSweep(p *Program, run *CheckRun, cfg PropertyCfg, timeout int) {
 		}
 		fr := &FuncResult{Key: r.Key, Undecided: r.Undecided, Notes: r.Notes, Externs: r.Externs, Trusted: r.Trusted}
 		for _, o := range r.Obls {
-			if !o.Canary && cfg.Sweep.Select != nil && !cfg.Sweep.Select(o) {
+			if !o.Canary && cfg.Sweep.SelectP != nil {
+				if !cfg.Sweep.SelectP(p, o) {
+					continue
+				}
+			} else if !o.Canary && cfg.Sweep.Select != nil && !cfg.Sweep.Select(o) {
 				continue
 			}
 			if why, ok := cfg.Sweep.Unclaimed[baseOblName(o.Name)]; ok && !o.Canary {
@@ -212,4 +218,44 @@ func loadSweep(p *Program, run *CheckRun, cfg PropertyCfg, timeout int) {
 	if len(unclaimed) > 0 {
 		run.Extra["unclaimed_obligations"] = unclaimed
 	}
+}
+
+// cueListHeaps: the heap arrays (described as in obligation names, with their group prefixes) that
+// can hold part of a cue list, i.e. everything reachable by type from Subtitles.
+func cueListHeaps(p *Program) map[string]bool {
+	out := map[string]bool{}
+	tn, ok := p.Pkg.Types.Scope().Lookup("Subtitles").(*types.TypeName)
+	if !ok {
+		return out
+	}
+	ex := newExec(p, nil)
+	ms := newModSet()
+	ex.modReachable(ms, types.NewPointer(tn.Type()), map[string]bool{}, true)
+	for h := range ms.heaps {
+		d := describeHeapName(h)
+		out[d] = true
+		out[heapGroup(d)+".*"] = true
+	}
+	return out
+}
+
+var cueHeapsMemo map[string]bool
+
+// purityObligationOfCueList: an `assigns` obligation about a heap that can hold cue-list data.
+func purityObligationOfCueList(p *Program, o *Obligation) bool {
+	if cueHeapsMemo == nil {
+		cueHeapsMemo = cueListHeaps(p)
+	}
+	i := strings.Index(o.Name, "#assigns[")
+	if i < 0 {
+		return false
+	}
+	d := o.Name[i+len("#assigns["):]
+	if j := strings.LastIndex(d, "]"); j >= 0 {
+		d = d[:j]
+	}
+	if j := strings.Index(d, ":"); j >= 0 {
+		d = d[j+1:]
+	}
+	return cueHeapsMemo[d]
 }
